@@ -1,5 +1,6 @@
 """C03 HLL per-slot max in every mode and width (DESIGN.md section 5 C03)."""
 import hll_rules as H
+import chains
 
 
 def run(facts, tier):
@@ -10,6 +11,7 @@ def run(facts, tier):
         ("nibble decode", H.nibble_decode, 2, "HLL_4 decoding: AUX_TOKEN -> exception lookup, otherwise raw + curMin, and nothing else"),
         ("successor locals", H.successor_locals, 1, "a member is not read between computing its successor local and storing it back"),
         ("coupon codec", H.coupon_constants, 1, "pair/getLow26/getValue use one key width"),
+        ("canonical chains", lambda fa: chains.obligations(fa, ["hll"]), 11, "typed update overloads follow the cross-language canonicalisation contract"),
         ("mode byte", H.mode_byte, 1, "mode byte encode/decode are inverse"),
     ):
         o = f(facts)
